@@ -243,14 +243,24 @@ func (w *world) get(h, i int) ([]int, string) {
 	return []int{id}, ""
 }
 
+// spell writes the address operand of a search the way a caller may: lower-case hex for odd keys,
+// upper-case hex for even ones (every spelling of a hex address names the same account).
+func spell(key int) string {
+	h := hex.EncodeToString(addr(key))
+	if key%2 == 0 {
+		return strings.ToUpper(h)
+	}
+	return h
+}
+
 func queryString(kind string, key int) string {
 	switch kind {
 	case "height":
 		return fmt.Sprintf("%s=%d", sdk.TxHeightKey, key)
 	case "signer":
-		return fmt.Sprintf("%s='%s'", sdk.TxSignerKey, hex.EncodeToString(addr(key)))
+		return fmt.Sprintf("%s='%s'", sdk.TxSignerKey, spell(key))
 	case "recipient":
-		return fmt.Sprintf("%s='%s'", sdk.TxRecipientKey, hex.EncodeToString(addr(key)))
+		return fmt.Sprintf("%s='%s'", sdk.TxRecipientKey, spell(key))
 	}
 	panic("unknown query kind " + kind)
 }
